@@ -10,6 +10,7 @@ behind the construct.  The oracle evaluates the condition trees with exact
 arithmetic on the planted operand values under the statement's width
 precondition and interprets the abstract block structure.
 """
+import contextlib
 import itertools
 import operator
 import os
@@ -22,8 +23,10 @@ from harness.c01_intexpr import values_for, sx
 
 PROP = "C03"
 LEVEL = "model_checking"
-RULE = ("programs = block structure (with / with+Else / nested / sequenced, "
-        "body lengths 0..5) x condition trees over the stated atom alphabet; "
+RULE = ("programs = block structure (with / with+Else / nested / sequenced / "
+        "else-if chains, body lengths 0..5, bodies that exit the program) x "
+        "condition trees over the stated atom alphabet, with operands private "
+        "to each atom and with one register shared by all atoms; "
         "each runs on every operand vector of its family (boundary pairs per "
         "atom, all 2^n truth assignments for trees and nested blocks); a case "
         "(program, vector) is non-trivial when the generator accepted the "
@@ -44,6 +47,7 @@ CMP = {">": operator.gt, ">=": operator.ge, "<": operator.lt,
        "<=": operator.le, "!=": operator.ne, "==": operator.eq}
 
 KF_NARROW = "C03-narrow-signed-right-operand-zero-extended"
+KF_ELIF = "C03-bittest-else-in-elif-chain"
 
 LOG_BITS = 6          # ids 1..63, ten entries before the log wraps
 FLAG_SLOT0 = 3        # output slots: 0 log, 1 fv, 2 r5, 3.. flag bytes
@@ -174,49 +178,95 @@ def tree_eval(t, env, atomfn=atom_eval):
 # ------------------------------------------------------- abstract programs
 # stmt: ("m", id, L) | ("if", tree, body, els)     els: None or list of stmt
 #   L=0 nothing, 1 flag byte, 2 log entry, 3 flag+log, 4 +fv=id, 5 +r5=id
+#   ("x", id): flush the markers and `exit(64 + id)`; the program's return
+#   value tells which body left the program (2 = ran to the end)
+#   ("chain", [(tree, body), ...], final): else-if chain
+#       with t1 as Else: b1 / with Else, t2 as Else: b2 / ... / with Else: final
+EXIT_BASE = 64
+RET_END = 2
+
+
+def sub_bodies(s):
+    """the statement lists nested in one statement"""
+    if s[0] == "if":
+        return [s[2]] + ([s[3]] if s[3] is not None else [])
+    if s[0] == "chain":
+        return [b for _, b in s[1]] + ([s[2]] if s[2] is not None else [])
+    return []
+
+
 def stmts_trees(stmts, out=None):
     if out is None:
         out = []
     for s in stmts:
         if s[0] == "if":
             out.append(s[1])
-            stmts_trees(s[2], out)
-            if s[3] is not None:
-                stmts_trees(s[3], out)
+        elif s[0] == "chain":
+            out.extend(t for t, _ in s[1])
+        for b in sub_bodies(s):
+            stmts_trees(b, out)
     return out
 
 
 def stmts_markers(stmts, out=None):
+    """all ("m", ...) and ("x", ...) statements"""
     if out is None:
         out = []
     for s in stmts:
-        if s[0] == "m":
+        if s[0] in ("m", "x"):
             out.append(s)
-        else:
-            stmts_markers(s[2], out)
-            if s[3] is not None:
-                stmts_markers(s[3], out)
+        for b in sub_bodies(s):
+            stmts_markers(b, out)
     return out
 
 
-def interpret(stmts, truth, st):
-    """st = [log, fv, r5, set(flags)]"""
-    for s in stmts:
-        if s[0] == "m":
-            _, i, L = s
-            if L in (1, 3, 4, 5):
-                st[3].add(i)
-            if L >= 2:
-                st[0] = ((st[0] << LOG_BITS) | i) & M64
-            if L >= 4:
-                st[1] = i
-            if L >= 5:
-                st[2] = i
-        elif truth(s[1]):
-            interpret(s[2], truth, st)
-        elif s[3] is not None:
-            interpret(s[3], truth, st)
+class Exited(Exception):
+    pass
+
+
+def interpret(stmts, truth, st, top=True):
+    """st = [log, fv, r5, set(flags), return value]"""
+    try:
+        for s in stmts:
+            if s[0] == "m":
+                _, i, L = s
+                if L in (1, 3, 4, 5):
+                    st[3].add(i)
+                if L >= 2:
+                    st[0] = ((st[0] << LOG_BITS) | i) & M64
+                if L >= 4:
+                    st[1] = i
+                if L >= 5:
+                    st[2] = i
+            elif s[0] == "x":
+                st[4] = EXIT_BASE + s[1]
+                raise Exited()
+            elif s[0] == "chain":
+                for tree, body in s[1]:
+                    if truth(tree):
+                        interpret(body, truth, st, False)
+                        break
+                else:
+                    if s[2] is not None:
+                        interpret(s[2], truth, st, False)
+            elif truth(s[1]):
+                interpret(s[2], truth, st, False)
+            elif s[3] is not None:
+                interpret(s[3], truth, st, False)
+    except Exited:
+        if not top:
+            raise
     return st
+
+
+def fresh_state():
+    return [0, 0, 0, set(), RET_END]
+
+
+class ExitCode:
+    """stands in for an XDPExitCode member"""
+    def __init__(self, value):
+        self.value = value
 
 
 class Prog:
@@ -232,12 +282,13 @@ class Prog:
                         ops.append(o)
         self.ops = ops
         marks = stmts_markers(stmts)
+        self.has_exit = any(m[0] == "x" for m in marks)
         ids = [m[1] for m in marks]
         if len(set(ids)) != len(ids) or (ids and not 0 < min(ids) <= max(ids)
                                          < (1 << LOG_BITS)):
             raise core.Internal(f"bad marker ids {ids}")
         self.maxid = max(ids) if ids else 0
-        self.use_r5 = any(m[2] >= 5 for m in marks)
+        self.use_r5 = any(m[0] == "m" and m[2] >= 5 for m in marks)
         attrs = {"fv": LocalVar("I")}
         self.names = {}
         for i, o in enumerate(ops):
@@ -274,12 +325,20 @@ class Prog:
                 b.plant_reg(no, i, long=REGKIND[o[1]][0] == 8)
         self.flag_off = b.out_off + 8 * FLAG_SLOT0
         self.emit(stmts)
+        self.flush()
+        b.finish(RET_END)
+        self.malformed = None
+        try:
+            b.code()
+        except bpfvm.Trap as t:      # the assembled bytes do not decode
+            self.malformed = str(t)
+
+    def flush(self):
+        b = self.b
         b.out_reg(6, 0)
         b.out_local("fv", 1)
         if self.use_r5:
             b.out_reg(5, 2)
-        b.finish()
-        b.code()
 
     # -------------------------------------------------- DSL side
     def mk_op(self, o):
@@ -326,9 +385,25 @@ class Prog:
             e.r5 = i
 
     def emit(self, stmts):
+        e = self.b.e
         for s in stmts:
             if s[0] == "m":
                 self.marker(s[1], s[2])
+                continue
+            if s[0] == "x":
+                self.flush()             # raw; the body then ends in EXIT
+                e.exit(ExitCode(EXIT_BASE + s[1]))
+                continue
+            if s[0] == "chain":
+                links, final = s[1], s[2]
+                with self.mk(links[0][0]) as Else:
+                    self.emit(links[0][1])
+                for tree, body in links[1:]:
+                    with Else, self.mk(tree) as Else:
+                        self.emit(body)
+                if final is not None:
+                    with Else:
+                        self.emit(final)
                 continue
             _, tree, body, els = s
             cond = self.mk(tree)
@@ -351,7 +426,7 @@ class Prog:
             out.append(v & M64)
         return out
 
-    def observe(self, outs, pkt):
+    def observe(self, outs, pkt, ret=RET_END):
         flags = {i for i in range(1, self.maxid + 1)
                  if pkt[self.flag_off + i]}
         for i in range(self.flag_off, len(pkt)):
@@ -359,7 +434,7 @@ class Prog:
                                         i - self.flag_off > self.maxid):
                 flags.add(("garbage", i - self.flag_off, pkt[i]))
         return [outs[0], outs[1] & 0xffffffff,
-                outs[2] if self.use_r5 else 0, flags]
+                outs[2] if self.use_r5 else 0, flags, ret]
 
 
 REJECTIONS = ("AssembleError", "TypeError", "error", "NotImplementedError")
@@ -388,14 +463,23 @@ def build(stmts, res, family=""):
         # an internal error of the generator (failed assertion about a jump
         # placeholder, missing attribute, index error ...) while writing a
         # form the statement quantifies over
+        kf = None
+        if has_chain(stmts):
+            # the stale indices of KF_ELIF can also make the generator trip
+            with no_splice():
+                try:
+                    Prog(stmts)
+                    kf = KF_ELIF
+                except Exception:
+                    pass
         res.count("generator_crashed")
-        res.outcomes.add("crashed:" + name)
+        res.outcomes.add(("crashed:" + name, str(kf)))
         res.violation(dict(stmts=stmts, family=family, env=[]),
                       "program is generated (or refused with AssembleError/"
                       "TypeError)", f"{name}: {ex} at "
                       f"{os.path.basename(tb[-1].filename)}:{tb[-1].name}",
-                      sig=core.digest(["crash", name, tb[-1].name,
-                                       shape_stmts(stmts)]),
+                      kf=kf, sig=core.digest(["crash", name, tb[-1].name,
+                                              shape_stmts(stmts), str(kf)]),
                       note="generator crashes with an internal error on a "
                            "form the statement covers")
         return None
@@ -455,10 +539,48 @@ def shape_stmts(stmts):
     for s in stmts:
         if s[0] == "m":
             out.append(("m", s[2]))
+        elif s[0] == "x":
+            out.append(("x",))
+        elif s[0] == "chain":
+            out.append(("chain", [(shape_tree(t), shape_stmts(b))
+                                  for t, b in s[1]],
+                        None if s[2] is None else shape_stmts(s[2])))
         else:
             out.append(("if", shape_tree(s[1]), shape_stmts(s[2]),
                         None if s[3] is None else shape_stmts(s[3])))
     return out
+
+
+@contextlib.contextmanager
+def no_splice():
+    """defect model for KF_ELIF: the generator with bit tests using the
+    generic Else (jump over the Else block) instead of moving the Else block
+    in front of the body afterwards, which leaves stale instruction indices
+    and jump offsets in the other links of an else-if chain (the checked run
+    never uses this)"""
+    import ebpfcat.ebpf as eb
+    orig = eb.AndComparison.Else
+    eb.AndComparison.Else = eb.Comparison.Else
+    try:
+        yield
+    finally:
+        eb.AndComparison.Else = orig
+
+
+def has_chain(stmts):
+    return any(s[0] == "chain" or any(has_chain(b) for b in sub_bodies(s))
+               for s in stmts)
+
+
+def execute(p, env):
+    """-> (observation or None, trap or None, vm steps)"""
+    if p.malformed:
+        return None, "malformed program: " + p.malformed, 0
+    try:
+        ret, outs, pkt, vm = p.b.run_vm(p.inputs(env))
+        return p.observe(outs, pkt, ret), None, vm.steps
+    except bpfvm.Trap as t:
+        return None, str(t), 0
 
 
 def run_prog(stmts, envs, res, kernel=False, family=""):
@@ -470,11 +592,15 @@ def run_prog(stmts, envs, res, kernel=False, family=""):
     atoms = [a for t in trees for a in tree_atoms(t)]
     case = dict(stmts=stmts, family=family)
     kfd = None
-    if kernel and kern.available():
+    # a body that leaves the program makes the generator emit an
+    # unreachable jump which the verifier refuses (C05's finding): such
+    # programs are judged in the interpreter only
+    if kernel and kern.available() and not p.has_exit and not p.malformed:
         try:
             kfd = p.b.load_kernel()
         except kern.LoadError:
             res.count("kernel_rejected")
+    pfix = []          # lazily: the program from the KF_ELIF generator
     try:
         for env in envs:
             res.count("evaluations")
@@ -483,17 +609,12 @@ def run_prog(stmts, envs, res, kernel=False, family=""):
                 outside = None
             except Outside as ex:
                 truth, outside = None, str(ex)
-            inp = p.inputs(env)
-            try:
-                _, outs, pkt, vm = p.b.run_vm(inp)
-                obs, trap = p.observe(outs, pkt), None
-                res.count("transitions", vm.steps)
-            except bpfvm.Trap as t:
-                obs, trap = None, str(t)
+            obs, trap, steps = execute(p, env)
+            res.count("transitions", steps)
             if kfd is not None and trap is None:
                 res.count("kernel_validated")
-                _, kouts, kpkt = p.b.run_kernel(kfd, inp)
-                kobs = p.observe(kouts, kpkt)
+                kret, kouts, kpkt = p.b.run_kernel(kfd, p.inputs(env))
+                kobs = p.observe(kouts, kpkt, kret)
                 if kobs != obs:
                     raise core.Internal(
                         f"VM/kernel disagreement on {case} env={env}: "
@@ -502,24 +623,19 @@ def run_prog(stmts, envs, res, kernel=False, family=""):
                 res.count("outside_precondition")
                 continue
             exp = interpret(stmts, lambda t: tree_eval(
-                t, env, lambda a, _e: truth[a]), [0, 0, 0, set()])
+                t, env, lambda a, _e: truth[a]), fresh_state())
             res.nontrivial.add(core.digest([stmts, envj(env)]))
             res.count("checked")
-            if trap is not None:
-                res.outcomes.add("trap")
-                res.violation(dict(case, env=envj(env)), fmt_obs(exp), trap,
-                              sig=core.digest(["trap", shape_stmts(stmts)]),
-                              note="generated program traps")
-                continue
             if obs == exp:
                 res.outcomes.add(("ok", tuple(sorted(exp[3], key=repr))
-                                  [:3], exp[0] & 63))
+                                  [:3], exp[0] & 63, exp[4] != RET_END))
                 continue
-            # ---- wrong branch: exactly the documented defect?
+            # ---- wrong branch / trap: exactly the documented defects?
             kf = None
             pred = {a: narrow_signed_zx(a, env) for a in atoms}
             hit = [a for a in atoms if pred[a] is not None
                    and pred[a] != truth[a]]
+            exp2 = None
             if hit:
                 # each affected atom may or may not be reached; the defect
                 # predicts the observation with all affected atoms deviating
@@ -527,9 +643,26 @@ def run_prog(stmts, envs, res, kernel=False, family=""):
                 for a in hit:
                     t2[a] = pred[a]
                 exp2 = interpret(stmts, lambda t: tree_eval(
-                    t, env, lambda a, _e: t2[a]), [0, 0, 0, set()])
+                    t, env, lambda a, _e: t2[a]), fresh_state())
                 if exp2 == obs:
                     kf = KF_NARROW
+            if kf is None and has_chain(stmts):
+                if not pfix:
+                    with no_splice():
+                        pfix.append(build(stmts, core.Result(), family))
+                if pfix[0] is not None:
+                    obs3 = execute(pfix[0], env)[0]
+                    if obs3 is not None and obs3 == exp:
+                        kf = KF_ELIF
+                    elif obs3 is not None and obs3 == exp2:
+                        kf = [KF_ELIF, KF_NARROW]
+            if trap is not None:
+                res.outcomes.add(("trap", str(kf)))
+                res.violation(dict(case, env=envj(env)), fmt_obs(exp), trap,
+                              kf=kf, sig=core.digest(
+                                  ["trap", shape_stmts(stmts), str(kf)]),
+                              note="generated program traps")
+                continue
             res.outcomes.add(("wrong", str(kf)))
             res.violation(dict(case, env=envj(env)), fmt_obs(exp),
                           fmt_obs(obs), kf=kf,
@@ -546,7 +679,7 @@ def fmt_obs(o):
         ids.append(log & ((1 << LOG_BITS) - 1))
         log >>= LOG_BITS
     return dict(log=ids[::-1], fv=o[1], r5=o[2],
-                flags=sorted(o[3], key=repr))
+                flags=sorted(o[3], key=repr), ret=o[4])
 
 
 # ------------------------------------------------------------ operand values
@@ -685,6 +818,70 @@ def truth_vectors(atoms, seed, per=1):
                 env.update(lst[(k * 3 + sum(bits[:i])) % len(lst)])
             if ok:
                 yield env
+
+
+def shared_values(o):
+    """values of an operand that several atoms use: a negative one first"""
+    size, signed, fixed = otype(o)
+    if fixed:
+        return [-250000, 350000]
+    if o[0] == "bf":
+        return [0xff, 0]
+    return [-5, 7] if signed else [7, 0]
+
+
+def truth_vectors_shared(atoms, seed, per=1):
+    """like truth_vectors, for atoms that share operands: every value vector
+    of the shared operands x every truth assignment that the private
+    operands can still produce"""
+    count = {}
+    for a in atoms:
+        for o in uniq([o for o in atom_operands(a) if is_var(o)]):
+            count[o] = count.get(o, 0) + 1
+    shared = [o for o in count if count[o] > 1]
+    if not shared:
+        yield from truth_vectors(atoms, seed, per)
+        return
+    for svals in itertools.product(*[shared_values(o) for o in shared]):
+        fixed = dict(zip(shared, svals))
+        opts = []
+        for a in atoms:
+            ops = uniq([o for o in atom_operands(a) if is_var(o)])
+            priv = [o for o in ops if o not in fixed]
+            if len(priv) == len(ops):
+                opts.append(pick(a, seed))
+                continue
+            t, f = [], []
+            if not priv:
+                cand = [{}]
+            else:
+                (P,) = priv
+                vals = []
+                if a[0] == "cmp":
+                    other = a[3] if a[2] == P else a[2]
+                    for d in (0, -1, 1):
+                        v = raw_for(P, oval(other, fixed), d)
+                        if v is not None:
+                            vals.append(v)
+                vals += dom(P, seed, True)
+                cand = [{P: v} for v in uniq(vals)]
+            for c in cand:
+                try:
+                    (t if atom_eval(a, {**fixed, **c}) else f).append(c)
+                except Outside:
+                    pass
+            opts.append((t, f))
+        n = len(atoms)
+        for k in range(per):
+            for bits in itertools.product((True, False), repeat=n):
+                env = dict(fixed)
+                for i, want in enumerate(bits):
+                    lst = opts[i][0 if want else 1]
+                    if not lst:
+                        break
+                    env.update(lst[(k * 3 + sum(bits[:i])) % len(lst)])
+                else:
+                    yield env
 
 
 # ------------------------------------------------------------------ families
@@ -900,6 +1097,54 @@ def depth_of(s):
     return 1 + max([depth_of(x) for x in s[1] + (s[2] or [])] + [0])
 
 
+def shared_atom(K, rkind, op, n):
+    """comparison of THE register of kind K (one per program) with a right
+    operand of its own"""
+    right = {"sr": ("reg", "sr", 50 + n), "sw": ("reg", "sw", 50 + n),
+             "r": ("reg", "r", 50 + n), "w": ("reg", "w", 50 + n),
+             "c": ("const", 5), "cn": ("const", -3)}.get(rkind)
+    if right is None:
+        right = ("loc", rkind, 50 + n)
+    return ("cmp", op, ("reg", K, 49), right)
+
+
+def exit_structures(quick):
+    """skeletons with bodies that leave the program: ("x",) = exit with the
+    body's own code, ("chn", [body, ...], final) = else-if chain"""
+    M1, M3, X = ("m", 1), ("m", 3), ("x",)
+    XB = [[M3], [M1, X], [X], []]
+    tops = []
+    for bd in XB:
+        for el in [None] + XB:
+            if X in bd or (el and X in el):
+                tops.append([("blk", bd, el)])
+    blkX = ("blk", [M1, X], None)        # nested block that ends in exit
+    inner = [blkX, ("blk", [X], [M3]), ("blk", [M3], [X]),
+             ("blk", [X], None)]
+    for inn in inner:
+        for pre in ([], [M1]):
+            for post in ([], [M3]):
+                for el in (None, [M3], [M1, X], [inn], []):
+                    tops.append([("blk", pre + [inn] + post, el)])
+                tops.append([("blk", [M3], pre + [inn] + post)])
+    blkE = ("blk", [M3], [M1])
+    CB = [[M3], [M1], [], [M3, X], [X], [M1, blkX], [blkE]]
+    CB3 = [[M3], [X], [M1, blkX], []]
+    finals = [None, [M3], [], [M1, X]]
+    chains = [("chn", [a, b], f) for a in CB for b in CB for f in finals]
+    chains += [("chn", [a, b, c], f) for a in CB3 for b in CB3 for c in CB3
+               for f in finals]
+    for i, c in enumerate(chains):
+        tops.append([c])
+        if i % 9 == 0:
+            tops.append([("blk", [M3], None), c])
+            tops.append([c, ("blk", [M1], [M3])])
+            tops.append([("blk", [c], [M3])])
+            tops.append([("blk", [M1], [c])])
+            tops.append([("chn", [[M3], [c, M1]], [M3])])
+    return tops
+
+
 PATTERNS = {
     "simple": ["S", "Sm", "E", "S", "X", "Sm", "S", "E"],
     "jset":   ["Jw", "Jw", "Bw", "Jw", "Bm", "Jw", "Bw", "Jw"],
@@ -910,7 +1155,25 @@ PATTERNS = {
                ("and", "B", "Bn")],
     "andor":  [("and", "S", "J"), ("or", "Jz", "B"), ("or", "S", "Sm"),
                ("and", "Bn", "E")] * 2,
+    # every site compares the same register
+    "sh_sw":  [("sh", "sw", "sr", ">"), ("sh", "sw", "q", "<"),
+               ("sh", "sw", "c", ">="), ("sh", "sw", "sr", "<="),
+               ("sh", "sw", "q", "!="), ("sh", "sw", "i", "<"),
+               ("sh", "sw", "q", ">"), ("sh", "sw", "sr", "==")],
+    "sh_sw2": [("sh", "sw", "q", ">="), ("sh", "sw", "sw", "<"),
+               ("sh", "sw", "sr", "<"), ("sh", "sw", "cn", ">"),
+               ("sh", "sw", "q", "<="), ("sh", "sw", "sr", "!="),
+               ("sh", "sw", "h", ">"), ("sh", "sw", "q", "==")],
+    "sh_sr":  [("sh", "sr", "sw", ">"), ("sh", "sr", "q", "<"),
+               ("sh", "sr", "i", ">="), ("sh", "sr", "c", "<="),
+               ("sh", "sr", "sr", "!="), ("sh", "sr", "h", "<"),
+               ("sh", "sr", "sw", "=="), ("sh", "sr", "q", ">")],
+    "sh_w":   [("sh", "w", "sr", ">"), ("sh", "w", "Q", "<"),
+               ("sh", "w", "c", ">="), ("sh", "w", "q", "<="),
+               ("sh", "w", "w", "!="), ("sh", "w", "r", "<"),
+               ("sh", "w", "sr", "=="), ("sh", "w", "I", ">")],
 }
+SHARED_PATTERNS = ("sh_sw", "sh_sw2", "sh_sr", "sh_w")
 
 
 def instantiate(top, pattern, rot):
@@ -922,15 +1185,29 @@ def instantiate(top, pattern, rot):
     def cond(spec):
         if isinstance(spec, str):
             return rep_atom(spec, next(atomno))
+        if spec[0] == "sh":
+            return shared_atom(spec[1], spec[2], spec[3], next(atomno))
         return (spec[0],) + tuple(cond(s) for s in spec[1:])
+
+    def site_cond():
+        return cond(pattern[next(site) % len(pattern)])
 
     def conv(stmts):
         out = []
         for s in stmts:
             if s[0] == "m":
                 out.append(("m", next(ids), s[1]))
+            elif s[0] == "x":
+                out.append(("x", next(ids)))
+            elif s[0] == "chn":
+                links = []
+                for body in s[1]:
+                    c = site_cond()
+                    links.append((c, conv(body)))
+                out.append(("chain", links,
+                            None if s[2] is None else conv(s[2])))
             else:
-                c = cond(pattern[next(site) % len(pattern)])
+                c = site_cond()
                 bd = conv(s[1])
                 el = None if s[2] is None else conv(s[2])
                 out.append(("if", c, bd, el))
@@ -952,13 +1229,24 @@ def work_block(item, res):
     if len(atoms) > MAX_ATOMS:
         res.count("block_programs_skipped_more_than_%d_atoms" % MAX_ATOMS)
         return
-    envs = list(truth_vectors(atoms, seed))
+    envs = list(truth_vectors_shared(atoms, seed))
     run_prog(stmts, envs, res, kernel, "block")
 
 
+def work_shtree(item, res):
+    """family F2s: tree shapes over atoms that compare the same register"""
+    shape, K, rkinds, ops, lens, seed, kernel = item
+    atoms = [shared_atom(K, r, op, i)
+             for i, (r, op) in enumerate(zip(rkinds, ops))]
+    tree = subst(shape, atoms)
+    envs = list(truth_vectors_shared(atoms, seed))
+    for k, stmts in enumerate(with_forms(tree, lens)):
+        run_prog(stmts, envs, res, kernel and k == 0, "shtree")
+
+
 def work(item, res):
-    {"atom": work_atom, "tree": work_tree, "block": work_block}[item[0]](
-        item[1:], res)
+    {"atom": work_atom, "tree": work_tree, "block": work_block,
+     "shtree": work_shtree}[item[0]](item[1:], res)
 
 
 def items_for(ctx):
@@ -1025,6 +1313,44 @@ def items_for(ctx):
                 n += 1
                 items.append(("block", top, pname, rot, ctx.seed,
                               n % ke == 0))
+    # the same register in several atoms of one tree ...
+    rk = {"sw": ["sr", "q", "c", "sw"], "sr": ["sw", "q", "i", "c"],
+          "w": ["sr", "q", "c", "w"]}
+    opsets = [(">", "<", ">="), ("<=", "!=", ">"), ("==", ">", "<")]
+    for K in ("sw", "sr", "w"):
+        for si, shape in enumerate(tree_shapes(2)):
+            for ri, rs in enumerate(itertools.product(rk[K], repeat=2)):
+                n += 1
+                items.append(("shtree", shape, K, rs, opsets[ri % 3][:2],
+                              [(3, None), (3, 1)], ctx.seed, n % ke == 0))
+        for si, shape in enumerate(shapes3):
+            for ri, rs in enumerate(itertools.product(rk[K][:3], repeat=3)):
+                if ctx.quick and (K != "sw" or (si + ri + ctx.seed) % 3):
+                    continue
+                n += 1
+                items.append(("shtree", shape, K, rs, opsets[(si + ri) % 3],
+                              [(3, None), (3, 1)], ctx.seed, n % ke == 0))
+    # ... and in the conditions of consecutive / nested blocks
+    for ti, top in enumerate(tops):
+        deep = depth_of(top[0])
+        for pi, pname in enumerate(SHARED_PATTERNS):
+            if ctx.quick and ((deep > 1 and (ti + pi + ctx.seed) % 2)
+                              or pi > 1 and (ti + ctx.seed) % 3):
+                continue
+            if deep == 3 and (ti + pi + ctx.seed) % 2:
+                continue
+            n += 1
+            items.append(("block", top, pname, (ti + pi) % 8, ctx.seed,
+                          n % ke == 0))
+    # bodies that leave the program, else-if chains
+    xpats = ["simple", "jset", "mixed", "bits", "andor", "sh_sw"]
+    for ti, top in enumerate(exit_structures(ctx.quick)):
+        for pi, pname in enumerate(xpats):
+            if ctx.quick and pi > 1 and (ti + pi + ctx.seed) % 3:
+                continue
+            n += 1
+            items.append(("block", top, pname, (ti + 2 * pi) % 8, ctx.seed,
+                          n % ke == 0))
     return items
 
 
@@ -1038,7 +1364,7 @@ def run(ctx):
     res.cov["kernel_available"] = kern.available()
     res.cov["families"] = {
         k: sum(1 for i in items if i[0] == k) for k in
-        ("atom", "tree", "block")}
+        ("atom", "tree", "shtree", "block")}
     res.sample(dict(stmts=[["if", ["jset", ["loc", "I", 0],
                                    ["const", 0x80000000], "with"],
                             [["m", 1, 3]], [["m", 2, 1]]], ["m", 9, 3]]))
@@ -1054,6 +1380,14 @@ def run(ctx):
         "a 32-bit write leaves behind)",
         "float constants in conditions are exactly representable (3.5, 2.5, "
         "0.5); inexact decimals belong to C02",
+        "a body that ends in exit(code) leaves the program: the oracle then "
+        "demands exactly that body's code as return value and the markers "
+        "written before it; 'execution continues after the construct' is "
+        "demanded of all other paths; programs with an exit inside a body are "
+        "judged in the interpreter only (the kernel refuses the unreachable "
+        "jump behind the exit, C05's finding)",
+        "assembled bytes that do not decode (a spliced 64-bit load) count as "
+        "a trapping program",
         "forms the generator refuses (TypeError/AssembleError/struct.error "
         "while the program is written) are counted, not judged; an internal "
         "error of the generator (failed assertion about a jump placeholder, "
@@ -1071,6 +1405,12 @@ def stmts_from_json(js):
     for s in js:
         if s[0] == "m":
             out.append(("m", s[1], s[2]))
+        elif s[0] == "x":
+            out.append(("x", s[1]))
+        elif s[0] == "chain":
+            out.append(("chain", [(tup(t), stmts_from_json(b))
+                                  for t, b in s[1]],
+                        None if s[2] is None else stmts_from_json(s[2])))
         else:
             out.append(("if", tup(s[1]), stmts_from_json(s[2]),
                         None if s[3] is None else stmts_from_json(s[3])))
